@@ -517,6 +517,27 @@ func dropSet(kv map[string]string) map[string]bool {
 	return m
 }
 
+// truncSet: signature fields whose BLS bytes are cut short on the wire (trunc=<f1,...>); decoding
+// such a signature fails, which the conversion layer reports as "no signature"
+func truncSet(kv map[string]string) map[string]bool {
+	m := map[string]bool{}
+	if d, ok := kv["trunc"]; ok && d != "-" {
+		for _, x := range strings.Split(d, ",") {
+			m["~"+x] = true
+		}
+	}
+	return m
+}
+
+func cutSig(q *hotstuffpb.QuorumSignature, cut bool) {
+	if !cut || q == nil {
+		return
+	}
+	if b := q.GetBLS12Sig(); b != nil && len(b.Sig) > 10 {
+		b.Sig = b.Sig[:10]
+	}
+}
+
 func dropQC(q *hotstuffpb.QuorumCert, pre string, d map[string]bool) *hotstuffpb.QuorumCert {
 	if q == nil || d[pre] {
 		return nil
@@ -524,6 +545,7 @@ func dropQC(q *hotstuffpb.QuorumCert, pre string, d map[string]bool) *hotstuffpb
 	if d[pre+".sig"] {
 		q.Sig = nil
 	}
+	cutSig(q.Sig, d["~"+pre+".sig"])
 	if d[pre+".hash"] {
 		q.Hash = nil
 	}
@@ -539,11 +561,15 @@ func dropSI(si *hotstuffpb.SyncInfo, d map[string]bool) *hotstuffpb.SyncInfo {
 		si.TC = nil
 	} else if si.TC != nil && d["tc.sig"] {
 		si.TC.Sig = nil
+	} else if si.TC != nil {
+		cutSig(si.TC.Sig, d["~tc.sig"])
 	}
 	if d["agg"] {
 		si.AggQC = nil
 	} else if si.AggQC != nil && d["agg.sig"] {
 		si.AggQC.Sig = nil
+	} else if si.AggQC != nil {
+		cutSig(si.AggQC.Sig, d["~agg.sig"])
 	}
 	return si
 }
@@ -551,6 +577,14 @@ func dropSI(si *hotstuffpb.SyncInfo, d map[string]bool) *hotstuffpb.SyncInfo {
 // wireDeliver returns a non-empty string when the op cannot be carried out.
 func (f *replicaFam) wireDeliver(a []string, kv map[string]string) string {
 	d := dropSet(kv)
+	if _, ok := kv["trunc"]; ok {
+		if f.env.scheme != "bls12" {
+			return "bad-op"
+		}
+		for k := range truncSet(kv) {
+			d[k] = true
+		}
+	}
 	ctx := f.peerCtx(kv)
 	switch a[1] {
 	case "propose":
@@ -585,6 +619,8 @@ func (f *replicaFam) wireDeliver(a []string, kv map[string]string) string {
 			pb.AggQC = nil
 		} else if pb.AggQC != nil && d["agg.sig"] {
 			pb.AggQC.Sig = nil
+		} else if pb.AggQC != nil {
+			cutSig(pb.AggQC.Sig, d["~agg.sig"])
 		}
 		f.nwire++
 		if pb.Block != nil {
@@ -617,6 +653,7 @@ func (f *replicaFam) wireDeliver(a []string, kv map[string]string) string {
 		if d["sig"] {
 			pb.Sig = nil
 		}
+		cutSig(pb.Sig, d["~sig"])
 		if d["hash"] {
 			pb.Hash = nil
 		}
@@ -633,6 +670,8 @@ func (f *replicaFam) wireDeliver(a []string, kv map[string]string) string {
 		if d["msgsig"] {
 			pb.MsgSig = nil
 		}
+		cutSig(pb.ViewSig, d["~viewsig"])
+		cutSig(pb.MsgSig, d["~msgsig"])
 		pb.SyncInfo = dropSI(pb.SyncInfo, d)
 		f.svc.Timeout(ctx, wire(pb, &hotstuffpb.TimeoutMsg{}))
 	case "newview":
